@@ -99,6 +99,8 @@ func c18Receivers(tier string) []c18Recv {
 		{mtAnyObj, []*mval{vAO(), vAO("a", vI(1)), vAO("a", vI(1), "b", vS("x"), "c", vL(vI(1)))}},
 		{mtObj("a", mtInt), []*mval{vO("a", vI(1))}},
 		{mtObj("a", mtInt, "b", mtStr), []*mval{vO("a", vI(1), "b", vS("x"))}},
+		// an own field named like a builtin member of objects: the declared field is what the name means
+		{mtObj("other", mtStr, "to_string", mtInt), []*mval{vO("other", vS("x"), "to_string", vI(3))}},
 		{mtOpt(mtInt), []*mval{vNone(), vSome(vI(1))}},
 		{mtOpt(mtStr), []*mval{vNone(), vSome(vS("a"))}},
 	}
